@@ -133,6 +133,15 @@ HeaderOK(h, hi, r, t, g, boExp, dsPerFile, X) ==
      \/ /\ K_NEGUNS \in X /\ h.dlen < dsPerFile * nv * h.bpp
         /\ IF img.fmt = "Multi" THEN NegSet(img.m[hi]) ELSE \E d \in 1..img.nd : NegSet(img.m[d])
 
+\* Beyond the property (no reader of this tree uses it): the old-style ".ahv" convenience header that
+\* write_basic_interfile_image_header writes next to every .hv header describes the same data file
+AhvOK(h, t, g) ==
+  LET a == h.ahv IN
+  /\ a.present /\ a.nimg = g.size[1] /\ a.msize = << g.size[3], g.size[2] >>
+  /\ QExact(a.vox[1], a.voxR[1], g.vox[3]) /\ QExact(a.vox[2], a.voxR[2], g.vox[2])
+  /\ a.bpp = Bytes(t) /\ a.bo = h.bo
+  /\ a.nf = (IF IsInt(t) THEN NumberFormat(t) ELSE IF Bytes(t) = 4 THEN "short float" ELSE "long float")
+
 \* the exam-information keys of a header are those the documented writer emits (ExamToHeader); with the Multi format
 \* the header of frame hi carries that frame only
 HdrExamOK(h, hi, X) ==
@@ -172,7 +181,8 @@ W_data(r, X) == \A d \in 1..img.nd :
   \/ DataSetOK(r.type, img.m[d], img.vexp, img.k, r.ds[d], img.bits[d], X)
 W_userscale(r, X) == \A d \in 1..img.nd : UserScaleOK(r, r.type, img.m[d], img.vexp, r.ds[d], X)
 W_exam(r, X) == Len(r.hdrs) = NumHdrs /\ \A hi \in 1..NumHdrs : HdrExamOK(r.hdrs[hi], hi, X)
-WriteOK(r, X) == W_status(r) /\ W_format(r) /\ W_headers(r, X) /\ W_layout(r, X) /\ W_data(r, X) /\ W_userscale(r, X) /\ W_exam(r, X)
+W_ahv(r) == Len(r.hdrs) = NumHdrs /\ \A hi \in 1..NumHdrs : AhvOK(r.hdrs[hi], r.type, G(img.geo[1]))
+WriteOK(r, X) == W_status(r) /\ W_format(r) /\ W_headers(r, X) /\ W_layout(r, X) /\ W_data(r, X) /\ W_userscale(r, X) /\ W_exam(r, X) /\ W_ahv(r)
 
 (* ----------------------------------------------------------------- Read *)
 \* The property demands the positions, not a particular index convention: the documented re-normalisation of the
@@ -215,7 +225,7 @@ ValuesReadOK(t, m, k, e, ds, vals, rbits, wbits, X) ==
 \* "The exam information that the format stores ... survives the round trip."
 ExamExpected == ExamStored(ExamOf(img.exam), env)
 R_status(r) == r.id = img.id /\ r.ok /\ ~r.err
-R_shape(r) == r.nd = img.nd /\ Len(r.geo) = img.nd /\ Len(r.vals) = img.nd /\ Len(r.bits) = img.nd
+R_shape(r) == r.nd = img.nd /\ Len(r.geo) = img.nd /\ Len(r.vals) = img.nd /\ Len(r.bits) = img.nd /\ Len(r.ftf) = img.nd
 R_geom(r, X) == \A d \in 1..img.nd : GeomReadOK(img.geo[d], r.geo[d], X)
 \* known finding K_NMOFF: every data set after the first is read from offset 0, i.e. shows the data of the first
 \* (decided exactly when both have the same scale factor, not examined otherwise)
@@ -230,12 +240,16 @@ R_values(r, X) == \A d \in 1..img.nd :
   \/ K_NEGUNS \in X /\ NegSet(img.m[d]) /\ Len(r.vals[d]) = Len(img.m[d])
   \/ IF K_NMOFF \in X /\ d >= 2 THEN NmOffRead(r, d)
      ELSE ValuesReadOK(wr.type, img.m[d], img.k, img.vexp, wr.ds[d], r.vals[d], r.bits[d], img.bits[d], X)
+\* container semantics: frame d of a dynamic image (get_density(d)) carries exactly time frame d of the container,
+\* a parameter image / a single image carries the frames of the exam information
+R_frames(r) == \A d \in 1..img.nd :
+  r.ftf[d].f = (IF img.kind = "dyn" THEN << ExamExpected.frames[d] >> ELSE ExamExpected.frames)
 R_exam(r, X) == \/ ExamOf(r.exam) = ExamExpected
                 \* known finding: rotation right / left read back as other
                 \/ K_ROT \in X /\ ExamExpected.rot \in { 2, 3 } /\ ExamOf(r.exam) = [ExamExpected EXCEPT !.rot = 4]
 ReadOK(r, X) ==
   \/ K_NEGUNS \in X /\ r.id = img.id /\ ~r.ok /\ r.err       \* known finding: the short file is (rightly) refused
-  \/ R_status(r) /\ R_shape(r) /\ R_geom(r, X) /\ R_values(r, X) /\ R_exam(r, X)
+  \/ R_status(r) /\ R_shape(r) /\ R_geom(r, X) /\ R_values(r, X) /\ R_exam(r, X) /\ R_frames(r)
 
 (* ---------------------------------------------------------------- Trunc *)
 \* "A data file shorter than its header announces is reported as an error rather than returned as an image."
@@ -298,10 +312,10 @@ Needed(r) == LET A == Applicable(r) IN
 WhyX(r, X) ==
   CASE r.e = "Write" /\ img # None ->
          (IF ~W_status(r) THEN "W_status" ELSE IF ~W_format(r) THEN "W_format" ELSE IF ~W_headers(r, X) THEN "W_headers"
-          ELSE IF ~W_layout(r, X) THEN "W_layout" ELSE IF ~W_data(r, X) THEN "W_data" ELSE IF ~W_userscale(r, X) THEN "W_userscale" ELSE "W_exam")
+          ELSE IF ~W_layout(r, X) THEN "W_layout" ELSE IF ~W_data(r, X) THEN "W_data" ELSE IF ~W_userscale(r, X) THEN "W_userscale" ELSE IF ~W_exam(r, X) THEN "W_exam" ELSE "W_ahv")
     [] r.e = "Read" /\ img # None /\ wr # None ->
          (IF ~R_status(r) THEN "R_status" ELSE IF ~R_shape(r) THEN "R_shape" ELSE IF ~R_geom(r, X) THEN "R_geom"
-          ELSE IF ~R_values(r, X) THEN "R_values" ELSE "R_exam")
+          ELSE IF ~R_values(r, X) THEN "R_values" ELSE IF ~R_exam(r, X) THEN "R_exam" ELSE "R_frames")
     [] OTHER -> r.e
 Why(r, N) == IF N = { "new" } THEN WhyX(r, Applicable(r)) ELSE WhyX(r, { })
 
